@@ -94,6 +94,9 @@ def _cases(draw):
             base = k.split("::")[0]
             if base in ("label", "hint", "constraint_message", "required_message", "guidance_hint") and "${" not in c[k] and g.p("_", 0.25):
                 c[k] = g.pick(NUMTEXT)
+            elif base in ("label", "hint", "constraint_message") and "${" not in c[k] and g.p("_", 0.06):
+                # Unicode line/paragraph separators and NEL (text pasted from a word processor): characters of the cell, not row ends
+                c[k] = "a" + g.pick(["\u2028", "\u2029", "\x85"]) + "b " + c[k]
             if base == "required" and c[k] in ("yes", "TRUE", "True", "true") and g.p("_", 0.6):
                 c[k] = "TRUE"
             if base == "required" and c[k] in ("no", "false") and g.p("_", 0.6):
